@@ -8,7 +8,8 @@ From Utp Require Import Base.Prelude Wire.SeqNr Wire.SeqNr_Proofs Wire.Header Rt
   Conn.Recovery Conn.Msg Conn.VSockRec Conn.VSock Conn.VSockRun Conn.VObs
   Conn.VSock_Lemmas Conn.VSock_LemmasStep Conn.VSock_LemmasReach Conn.VSock_LemmasTx
   Conn.VSock_LemmasIn Conn.VSock_LemmasTimers Conn.VSock_LemmasPipe Conn.C17_StepLemmas
-  Conn.C10_Pred Conn.C05_Pred Conn.C06_Pred Conn.C06_RecProofs Conn.C06_StepLemmas.
+  Conn.C10_Pred Conn.C05_Pred Conn.C06_Pred Conn.C0506_Pred2 Conn.C06_Pred2 Conn.C06_RecProofs
+  Conn.C06_StepLemmas Conn.C10_Proofs.
 
 Section WithCC.
 Context {CC : Type} (cci : cc_iface CC).
@@ -197,4 +198,147 @@ Proof.
   - eapply CAPc_vsock_new; eassumption.
 Qed.
 
+(* ================================================================== c06_emitted_live_ok *)
+(* the snapshot segment a sequence number of the table names *)
+Lemma fseg_of_seq_table : forall (s : vsock) j g,
+  seg_inv (v_segs s) -> tol_ok (fp_of_vsock cci s) = true ->
+  nth_error (ss_segs (v_segs s)) j = Some g ->
+  fseg_of_seq (fp_of_vsock cci s) (wadd16 (ss_snd_una (v_segs s)) (Z.of_nat j mod M16)) = Some (fseg_of g).
+Proof.
+  intros s j g (_ & _ & _ & _ & Hu) Ht Hn. unfold tol_ok, fseg_of_seq in *.
+  cbn [fp_of_vsock f_segs f_snd_una] in *. rewrite map_length in *. apply Z.leb_le in Ht.
+  assert (Hj : (j < length (ss_segs (v_segs s)))%nat) by (apply nth_error_Some; congruence).
+  assert (Hk : seq_sub (wadd16 (ss_snd_una (v_segs s)) (Z.of_nat j mod M16)) (ss_snd_una (v_segs s)) = Z.of_nat j).
+  { unfold seq_sub, wadd16. rewrite (Z.mod_small (Z.of_nat j)) by (unfold M16; lia).
+    apply offset_true_distance; unfold WRAP_TOLERANCE; try lia; try exact Hu. }
+  rewrite Hk.
+  replace ((0 <=? Z.of_nat j) && (Z.of_nat j <? Z.of_nat (length (ss_segs (v_segs s))))) with true
+    by (symmetry; apply andb_true_intro; split; [apply Z.leb_le | apply Z.ltb_lt]; lia).
+  rewrite Nat2Z.id. apply map_nth_error. exact Hn.
+Qed.
+
+Lemma OUT_emitted_live : forall cfg (s s' : vsock) sc,
+  poll cci (VSockRec.set_sends s sc) = (s', PollPending) ->
+  seg_inv (v_segs s') -> NW s' -> OUT s' ->
+  c06_emitted_live_ok cfg (fstep_of cci s (VoPoll sc)) = true.
+Proof.
+  intros cfg s s' sc E Hinv Hnw Hout. rewrite (fstep_of_poll cci s sc s' _ E). unfold c06_emitted_live_ok.
+  cbn [fs_event fs_result fs_post fs_now].
+  destruct (tol_ok (fp_of_vsock cci s')) eqn:Ht; [|reflexivity].
+  apply forallb_forall. intros x Hx. apply filter_In in Hx. destruct Hx as [Hx Hd].
+  apply in_map_iff in Hx. destruct Hx as (p & <- & Hp). apply in_rev in Hp.
+  unfold OUT in Hout. rewrite Forall_forall in Hout. specialize (Hout p Hp).
+  assert (Hty : ch_type (p_hdr p) = ST_DATA).
+  { unfold fq_is_data, fpacket_of in Hd. cbn [fq_hdr] in Hd. destruct (ch_type (p_hdr p)); try discriminate; reflexivity. }
+  destruct (Hout Hty) as (j & g & A1 & A2 & A3 & A4 & A5 & A6).
+  unfold fpacket_of. cbn [fq_hdr fq_plen]. rewrite A2, (fseg_of_seq_table s' j g Hinv Ht A1).
+  unfold fseg_of. cbn [fg_delivered fg_sent_kind fg_size fg_last_sent]. rewrite A3, A5, A6, Z.eqb_refl.
+  unfold NW in Hnw. rewrite Hnw, Z.eqb_refl. destruct (sg_sent g); [contradiction | reflexivity | reflexivity].
+Qed.
+
+(* every poll that the transport cannot answer with EMSGSIZE *)
+Theorem c06_emitted_live_ok_poll : forall cfg (s : vsock) sc,
+  LB 0 s -> v_emsg_limit s = None -> script_legit sc = true ->
+  c06_emitted_live_ok cfg (fstep_of cci s (VoPoll sc)) = true.
+Proof.
+  intros cfg s sc HL Hl Hs.
+  destruct (poll cci (VSockRec.set_sends s sc)) as [s' r] eqn:E.
+  destruct r; try (rewrite (fstep_of_poll cci s sc s' _ E); reflexivity).
+  assert (HL0 : LB 0 (VSockRec.set_sends s sc)) by (eapply LB_kp; [exact HL|]; unfold kp; auto).
+  pose proof (poll_LB cci _ HL0) as HL'. rewrite E in HL'. cbn [fst] in HL'.
+  assert (HE : EF (VSockRec.set_sends s sc)) by (split; [exact Hs | exact Hl]).
+  destruct (poll_OUT_strict cci _ _ HL0 HE E) as [Hnw Hout].
+  eapply OUT_emitted_live; eauto. apply HL'.
+Qed.
+
+Theorem c06_emitted_live_ok_other : forall cfg (s : vsock) o,
+  (forall sc, o <> VoPoll sc) -> c06_emitted_live_ok cfg (fstep_of cci s o) = true.
+Proof.
+  intros cfg s o Hnp. unfold c06_emitted_live_ok. rewrite fstep_of_event.
+  destruct o; try reflexivity. exfalso. eapply Hnp. reflexivity.
+Qed.
+
+(* the path limit a trace carries along *)
+Lemma vstep_limit : forall (s : vsock) o,
+  v_emsg_limit (vstep_state cci s o) = match o with VoSetLimit m => m | _ => v_emsg_limit s end.
+Proof.
+  intros s o. unfold vstep_state. destruct o; cbn [vstep]; try (repeat break_match; reflexivity).
+  destruct (poll cci (VSockRec.set_sends s script)) as [s' r] eqn:E. cbn [fst].
+  rewrite poll_unfold in E.
+  pose proof (VSock_LemmasFin.poll_loop_frame0 cci 64 (poll_init (VSockRec.set_sends s script))) as F.
+  rewrite E in F. cbn [fst] in F. destruct F as (_ & _ & _ & _ & F5 & _). exact F5.
+Qed.
+
+Theorem noemsg_scan_ok : forall (P : fstep -> bool),
+  (forall (s : vsock) o, (forall sc, o <> VoPoll sc) -> P (fstep_of cci s o) = true) ->
+  (forall (s : vsock) sc, LB 0 s -> v_emsg_limit s = None -> script_legit sc = true ->
+                          P (fstep_of cci s (VoPoll sc)) = true) ->
+  forall ops (s : vsock), LB 0 s -> noemsg_scan P (v_emsg_limit s) (ftrace cci s ops) = true.
+Proof.
+  intros P Hother Hpoll. induction ops as [|o rest IH]; intros s HL; [reflexivity|].
+  rewrite ftrace_cons'. cbn [noemsg_scan].
+  assert (Hn : lim_next (v_emsg_limit s) (fstep_of cci s o) = v_emsg_limit (vstep_state cci s o)).
+  { unfold lim_next. rewrite fstep_of_event, vstep_limit. destruct o; reflexivity. }
+  rewrite Hn. apply andb_true_intro. split.
+  - unfold poll_noemsg. rewrite fstep_of_event.
+    destruct o; cbn [fevent_of]; try (apply Hother; discriminate).
+    destruct (script_legit script) eqn:Es; [|reflexivity].
+    destruct (v_emsg_limit s) eqn:El; [reflexivity|]. cbn [andb]. apply Hpoll; assumption.
+  - destruct (poll_finished _); [reflexivity|]. apply IH. apply (vstep_LB cci s o HL).
+Qed.
+
+Theorem c06_emitted_live_ok_g_trace : forall cfg mk c (s0 : vsock) ops,
+  vconfig_ok c = true -> vsock_new cci mk c = Some s0 ->
+  c06_emitted_live_ok_g cfg (ftrace cci s0 ops) = true.
+Proof.
+  intros cfg mk c s0 ops Hc H0. unfold c06_emitted_live_ok_g.
+  assert (Hl : v_emsg_limit s0 = None).
+  { unfold vsock_new in H0.
+    destruct (match (if vc_incoming c then None else _) with Some r => _ | None => _ end); [|discriminate].
+    inversion H0; subst. reflexivity. }
+  rewrite <- Hl. apply noemsg_scan_ok.
+  - apply c06_emitted_live_ok_other.
+  - apply c06_emitted_live_ok_poll.
+  - eapply vsock_new_LB; eassumption.
+Qed.
+
 End WithCC.
+
+(* ------------------------------------------------------------------ c06_emitted_live_ok without the guard is
+   FALSE of the model: a poll that pops a failed MTU probe restarts, and the restarted iteration processes
+   the messages still queued AFTER the first iteration sent data.
+   Scenario (wait_for_last_ack off, nagle off, constant window): 4000 bytes written, first poll blocked
+   (segments 101 = 528 bytes and 102 = 991-byte probe unsent); path limit 600; the peer's FIN and a duplicate
+   ST_DATA acknowledging 101 are queued; poll [Sent; Sent; Pending]: the FIN is taken (LastAck, the receive
+   loop stops), 101 goes out, the probe is answered EMSGSIZE and popped, restart; the second iteration takes
+   the queued ACK: 101 leaves the table; the ACK the duplicate forces blocks: Pending.  The poll emitted
+   ST_DATA 101, and 101 is not in the table afterwards. *)
+Definition live_cfg : vconfig :=
+  {| vc_incoming := false; vc_ipv4 := true; vc_link_mtu := 1500; vc_rx_buf := 1048576;
+     vc_tx_init := 32768; vc_tx_max := 1048576; vc_nagle := false; vc_max_retx := 5;
+     vc_inactivity := 10000000000; vc_wait_last_ack := false; vc_mtu_probe_max_retx := 1;
+     vc_isn := 100; vc_remote_seq := 1; vc_remote_conn_id := 7; vc_remote_wnd := 1048576;
+     vc_remote_ts := 5; vc_syn_sent := 0; vc_now0 := 1000000 |}.
+
+Definition live_ops : list vop :=
+  [VoPoll []; VoWrite (repeat 0 (Z.to_nat 4000)); VoPoll [TPending];
+   VoSetLimit (Some 600);
+   VoDeliver (wmsg ST_FIN 1 100 0); VoDeliver (wmsg ST_DATA 0 101 10);
+   VoPoll [TSent; TSent; TPending]].
+
+Lemma emitted_live_restart_refuted :
+  exists w cfg ops,
+    vconfig_ok cfg = true /\ Forall op_msg_ok ops /\
+    forallb (c06_emitted_live_ok cfg) (wtrace w cfg ops) = false /\
+    (* the failing poll runs under a path limit: the guarded predicate does not claim it *)
+    c06_emitted_live_ok_g cfg (wtrace w cfg ops) = true /\
+    (* and the other predicates of the step family hold of the scenario *)
+    forallb (c06_cap_ok cfg) (wtrace w cfg ops) = true.
+Proof.
+  exists 100000, live_cfg, live_ops.
+  split; [vm_compute; reflexivity|]. split.
+  { unfold live_ops. repeat (apply Forall_cons; [try exact I|]); try apply Forall_nil.
+    - vm_compute. reflexivity.
+    - vm_compute. discriminate. }
+  split; [vm_compute; reflexivity|]. split; vm_compute; reflexivity.
+Qed.
